@@ -36,7 +36,10 @@ the XML of the shape serialised and re-parsed with *bare* lxml (no python-pptx e
     groups from the modified one up to the top): `a:off/a:ext` and `a:chOff/a:chExt` (bare lxml) and
     left/top/width/height (API, groups on the path) equal the bounding box of the group's member
     shapes' observed (x, y, cx, cy); sub-groups count with their own off/ext, which are themselves
-    checked, hence "recursively". Empty groups are skipped. For connector and freeform members the
+    checked, hence "recursively". Empty groups are skipped. A group that was already inconsistent
+    before a step is not reported again at that step (its breakage was reported when it happened; absence
+    of any report still implies the invariant at every step by induction), and per step only the lowest
+    wrong group on the path is reported. For connector and freeform members the
     observed member box must equal the requested one (those two are covered by the other clauses of the
     statement); for the other kinds the observed box is simply used.
 
@@ -487,12 +490,19 @@ def _g_obs(el):
     return {"box": _xfrm_box(el.find(P + "spPr/" + A + "xfrm")), "tag": etree.QName(el).localname}
 
 
-def _g_check(top, bare, model, op, modified):
-    """All group invariants after `op`. Returns list of (signature, message)."""
+def _g_check(top, bare, model, op, modified, prev_bad=frozenset()):
+    """All group invariants after `op`. Returns (list of (signature, message), paths of all groups that
+    are now inconsistent with their members).
+
+    A group that was ALREADY inconsistent before this step (path in `prev_bad`) is not reported again:
+    its breakage was reported at the step that broke it, and re-reporting it under the kind of every later
+    operation would give one defect many signatures. (No report at any step still implies the invariant
+    at every step, by induction from the consistent initial state.)"""
     kind = op[0]
     obs = _g_obs(bare)
     out = []
-    wrong = []   # (d or None, signature, message) of groups whose extents differ from their members' bbox
+    wrong = []   # (d, signature, message) of groups whose extents differ from their members' bbox
+    bad_now = set()
 
     def depth_of(path):
         if tuple(modified[:len(path)]) == tuple(path):
@@ -518,7 +528,11 @@ def _g_check(top, bare, model, op, modified):
                 boxes = [k["box"] for k in kids if not ("children" in k and not k["children"])]
                 exp = _bbox(boxes)
                 d = depth_of(path)
-                if o["box"] != exp:
+                if o["box"] != exp or o["chbox"] != exp:
+                    bad_now.add(tuple(path))
+                if tuple(path) in prev_bad:
+                    pass
+                elif o["box"] != exp:
                     wrong.append((d, "C17|group-extents|member-kind=%s|depth=%s" % (kind, d),
                                 "after adding %s at %r to group %r: group %r has off/ext %r, bounding box of its "
                                 "%d members is %r" % (kind, tuple(op[1:4]), tuple(op[4]), path, o["box"],
@@ -564,11 +578,12 @@ def _g_check(top, bare, model, op, modified):
         if got != want:
             out.append(("C17|group-member-box|member-kind=%s" % kind,
                         "%s requested with box %r in group %r has xfrm %r" % (kind, want, tuple(modified), got)))
-    return out
+    return out, bad_now
 
 
-def _g_step(part, slide, top, model, op, hist):
-    """Apply op to implementation and model, check, count. Returns True if anything was reported."""
+def _g_step(part, slide, top, model, op, hist, prev_bad):
+    """Apply op to implementation and model, check, count. Returns (bare tree or None, path of the
+    group that received the member, paths of groups now inconsistent)."""
     before = {p: _m_bbox(_m_group(model, p)) for p in _m_groups(model)}
     modified = _m_apply(model, op)
     kind = op[0]
@@ -580,15 +595,16 @@ def _g_step(part, slide, top, model, op, hist):
     except Exception as e:  # noqa
         part.violation("C17|group-extents|raised|member-kind=%s|%s" % (kind, type(e).__name__),
                        "adding %s raised %r" % (kind, e), replay)
-        return None, modified
+        return None, modified, prev_bad
     part.count("traces_validated_against_impl")
     changed = any(_m_bbox(_m_group(model, p)) != b for p, b in before.items())
     if changed:
         part.count("nontrivial_count")
     part.outcome("group.add-" + kind, "bbox-%s,depth=%d" % ("changed" if changed else "same", len(modified)))
-    for sig, msg in _g_check(top, bare, model, op, modified):
+    reports, bad_now = _g_check(top, bare, model, op, modified, prev_bad)
+    for sig, msg in reports:
         part.violation(sig, msg, replay)
-    return bare, modified
+    return bare, modified, bad_now
 
 
 def _g_ops(model, kinds, geoms):
@@ -647,10 +663,11 @@ def _g_work(part, chunk):
         part.add("states", ("grp", _g_canon(_bare(top.element))))
         done = []
         ok = True
+        bad = frozenset()
         for op in hist:
             done.append(op)
             part.count("group_prefix_ops")
-            bare, _mod = _g_step(part, slide, top, model, op, done)
+            bare, _mod, bad = _g_step(part, slide, top, model, op, done, bad)
             if bare is None:
                 ok = False
                 break
@@ -664,7 +681,7 @@ def _g_work(part, chunk):
         for op in list(_g_ops(model, KINDS, GEOMS_FULL)):
             m2 = copy.deepcopy(model)
             part.count("group_leaf_ops")
-            bare, mod = _g_step(part, slide, top, m2, op, done + [op])
+            bare, mod, _bad = _g_step(part, slide, top, m2, op, done + [op], bad)
             if bare is not None:
                 part.add("states", ("grp", _g_canon(bare)))
                 part.add("group_max_nesting", len(mod) + 1)
@@ -684,6 +701,7 @@ def _g_replay(data):
     _prs, slide = _blank_slide()
     top = slide.shapes.add_group_shape()
     model = _m_new()
+    prev_bad = frozenset()
     for o in data["ops"]:
         op = (o[0], o[1], o[2], o[3], tuple(o[4]))
         modified = _m_apply(model, op)
@@ -692,8 +710,8 @@ def _g_replay(data):
             bare = _bare(top.element)
         except Exception as e:  # noqa
             return "adding %s raised %r" % (op[0], e)
-        bad = _g_check(top, bare, model, op, modified)
-        if bad:
+        bad, prev_bad = _g_check(top, bare, model, op, modified, prev_bad)
+        if bad and o is data["ops"][-1]:
             return "; ".join("%s: %s" % b for b in bad)
     return None
 
